@@ -143,6 +143,30 @@ Expected(route, sink, name, sanitize, cfg) ==
     ELSE IF MustCarry(route, sink, name) THEN "present" ELSE "U"
 
 ---------------------------------------------------------------------------
+(* Re-configuration within one process is a history.  The configuration API: configure(keys) / configure(markers) REPLACE that
+   list of the current configuration, extend(keys) / extend(markers) ADD to it, "reset" re-installs the defaults.  An output of
+   the sanitizer depends only on the configuration current at the call (CfgAt), never on earlier calls. *)
+\* extra key: customer_ref, extra marker: trace
+ExtraKeys == {<<99, 117, 115, 116, 111, 109, 101, 114, 95, 114, 101, 102>>}
+ExtraMarkers == {<<116, 114, 97, 99, 101>>}
+ConfigOps == {"configure-keys", "configure-markers", "extend-keys", "extend-markers", "reset"}
+ApplyOp(cfg, op) == CASE op = "configure-keys"    -> [cfg EXCEPT !.keys = CustomKeys]
+                      [] op = "configure-markers" -> [cfg EXCEPT !.markers = CustomMarkers]
+                      [] op = "extend-keys"       -> [cfg EXCEPT !.keys = @ \cup ExtraKeys]
+                      [] op = "extend-markers"    -> [cfg EXCEPT !.markers = @ \cup ExtraMarkers]
+                      [] OTHER                    -> Cfg("default")
+(* configuration in force after the first k steps of history h (steps: [kind "C"/"S", op, name]) *)
+CfgAt(h, k) == LET f[j \in 0..k] == IF j = 0 THEN Cfg("default")
+                                    ELSE IF h[j].kind = "C" THEN ApplyOp(f[j - 1], h[j].op) ELSE f[j - 1]
+               IN f[k]
+\* names used by the history family: X-Custom X-Zeta-Id X-Trace customer_ref Authorization
+HNames == <<<<88, 45, 67, 117, 115, 116, 111, 109>>,
+            <<88, 45, 90, 101, 116, 97, 45, 73, 100>>,
+            <<88, 45, 84, 114, 97, 99, 101>>,
+            <<99, 117, 115, 116, 111, 109, 101, 114, 95, 114, 101, 102>>,
+            <<65, 117, 116, 104, 111, 114, 105, 122, 97, 116, 105, 111, 110>>>>
+
+---------------------------------------------------------------------------
 (* the enumerated family: (name, cfg) pairs, then the route x sink x sanitize x cfg matrix for every name *)
 VARIABLES kind, nameIx, cfgKind, route, sink, sanitize
 vars == <<kind, nameIx, cfgKind, route, sink, sanitize>>
